@@ -1271,7 +1271,11 @@ def loop_continuation(eng: Engine, ctx: Ctx, rid: str, model: ReaderModel):
             elif e.kind == "call" and not is_self_call(e.term, disp.name):
                 ctx.bad(rid, rd.qualname, norm(e.node), expected="only the error dispatcher is called", found=show(e.term)[:60], **eng.loc(rd, e.node))
         ends = [k for k, st in info.get("ends", []) if any(c[0] == "caught" and c[3] == norm(h.type) for c, pol in st.guards)]
-        ctx.check(ends and all(k == "continue" for k in ends), rid, rd.qualname, "handler ends in continue", expected="continue", found=", ".join(ends) or "no continue", **eng.loc(rd, h))
+        # the handler resumes the loop: an explicit `continue`, or it is the end of the loop body (the try statement is the loop's last statement)
+        trynode = eng.repo.parent(h)
+        tail = isinstance(info.get("node"), (ast.While, ast.For)) and info["node"].body and info["node"].body[-1] is trynode and not getattr(trynode, "finalbody", None)
+        ctx.check((bool(ends) and all(k == "continue" for k in ends)) or (not ends and bool(tail)), rid, rd.qualname, "handler resumes the loop", expected="continue (or the end of the loop body)",
+                  found=", ".join(ends) or ("falls through to the end of the loop body" if tail else "falls through to statements after the try"), **eng.loc(rd, h))
     nx = eng.repo.func(f"{eng.reader_cls}.__next__")
     ns = eng.symeval(nx.qualname)
     calls = [e for e in ns.effects if e.kind == "call" and is_self_call(e.term, "read")]
